@@ -48,6 +48,16 @@ func (e *integEngine) checkC12(x *integExpect) {
 		return
 	}
 	tCall := e.cancelCalls[0]
+	if e.cli && waitPoints > 0 {
+		// through the command line the cancellation starts when the first of the application's
+		// cancel listeners (woken by abort()) acts
+		tCall = -1
+		if len(e.listenerRel) > 0 {
+			tCall = e.listenerRel[0]
+		} else {
+			c.Count("c12_cli_run_ended_before_a_listener_acted")
+		}
+	}
 	tRet := -1
 	if len(e.cancelRets) > 0 {
 		tRet = e.cancelRets[0]
